@@ -345,6 +345,9 @@ func ruleC17_4(c *Ctx) {
 					okM = true
 				}
 			}
+			if call, ok := in.(*ssa.Call); ok && call.Call.StaticCallee() == stl && len(call.Call.Args) == 2 && strings.Contains(expr(call.Call.Args[1]), ".RspBody)") {
+				okM = true
+			}
 		})
 		c.check(okM, "SRespCodec.MGet: merged reply re-tested against the limit", p.pos(mg.Pos()), "len(msg.RspBody) > rc.MsgMaxLength", "the merged MGET reply is not tested against the reply size limit")
 	}
@@ -629,26 +632,50 @@ func ruleC18_3(c *Ctx) {
 					continue
 				}
 				bo, ok := ifi.Cond.(*ssa.BinOp)
-				if !ok || bo.Op != token.EQL {
+				if !ok || (bo.Op != token.EQL && bo.Op != token.NEQ) {
 					continue
 				}
 				and, ok := bo.X.(*ssa.BinOp)
 				if !ok || and.Op != token.AND {
 					continue
 				}
-				k, isK := constInt(and.Y)
+				mask, isK := constInt(and.Y)
 				k2, isK2 := constInt(bo.Y)
-				if !isK || !isK2 || k != k2 {
+				if !isK || !isK2 {
 					continue
 				}
+				// which single bits make the test succeed on its own?
+				var bits []int64
 				tb := b.Succs[0]
+				switch {
+				case bo.Op == token.EQL && k2 == mask && mask&(mask-1) == 0: // Op&K == K, K one bit
+					bits = []int64{mask}
+				case bo.Op == token.NEQ && k2 == 0: // Op&M != 0: any bit of M
+					for bit := int64(1); bit <= mask; bit <<= 1 {
+						if mask&bit != 0 {
+							bits = append(bits, bit)
+						}
+					}
+				case bo.Op == token.EQL && k2 == 0: // Op&M == 0: the false edge is the reload edge
+					tb = b.Succs[1]
+					for bit := int64(1); bit <= mask; bit <<= 1 {
+						if mask&bit != 0 {
+							bits = append(bits, bit)
+						}
+					}
+				default:
+					continue
+				}
+				k := int64(0)
+				_ = k
 				var hdr *ssa.BasicBlock
 				if l := innermostLoop(loopsOf(fn), b); l != nil {
 					hdr = l.Header
 				}
 				if tb == call.Block() || reachableBlocks(tb, func(x *ssa.BasicBlock) bool { return x == hdr })[call.Block()] {
-					// but not through another op test's false chain only: the true edge must lead to the call without further op tests failing
-					found[k] = true
+					for _, bit := range bits {
+						found[bit] = true
+					}
 				}
 			}
 		}
